@@ -1225,7 +1225,7 @@ Definition push_class (st : dstate) (name : bytes) (fields : list bytes) (t : gt
 
 Definition read_reference (t : gtype) (k : N) (pl : place) (st : dstate) : dres :=
   match nth_error (refs st) (N.to_nat k) with
-  | None => DPanic PRefIndex
+  | None => DErr EOther        (* reference index out of range: a decode error *)
   | Some e => if conv_exists (r_ty e) t then convert (r_ty e) (r_val e) t pl st else DErr ECast
   end.
 
@@ -1485,7 +1485,7 @@ Local Notation default_decode := (default_decode orc opts te rec).
 Local Notation decode_error := (decode_error rec).
 
 Definition class_info (st : dstate) (idx : N) (k : cinfo -> dres) : dres :=
-  match nth_error (clss st) (N.to_nat idx) with Some ci => k ci | None => DPanic PClassIndex end.
+  match nth_error (clss st) (N.to_nat idx) with Some ci => k ci | None => DErr EOther end.   (* class index out of range: a decode error *)
 
 (* decodeListAsInterface after the []interface{} has been decoded into cell r0 *)
 Definition list_as_iface_finish (r0 : nat) (n : nat) (pl : place) (st : dstate) : dres :=
@@ -1644,13 +1644,35 @@ Definition container_const (c : cst) (t : gtype) (pl : place) (st : dstate) : dr
   | _ => DUnk 54
   end.
 
+Definition min_prealloc : nat := 16.
+
+(* sliceHeader(slice).Len = i *)
+Definition slice_set_len (pl : place) (i : nat) (st : dstate) : dres :=
+  rd_or st pl (fun h => match h with XSliceH c _ => wr_or_panic st pl (XSliceH c i) | _ => DOk st end).
+
+Fixpoint slice_elems (e : gtype) (ws : list wire) (pl : place) (i n : nat) (st : dstate) : dres :=
+  match ws with
+  | [] => slice_set_len pl i st
+  | w :: r =>
+      let '(grown, n1) := if Nat.leb n i then (fst (slice_grow te e pl (S i) st), S i) else (DOk st, n) in
+      bindd grown (fun st1 =>
+      rd_or st1 pl (fun h =>
+        match h with
+        | XSliceH c _ => bindd (rec RElem e w (c, [i]) st1) (slice_elems e r pl (S i) n1)
+        | _ => DPanic PMem
+        end))
+  end.
+
 Definition dec_slice (e : gtype) (w : wire) (pl : place) (st : dstate) : dres :=
   let t := TSlice e in
   match sw_lookup (model_switch RtSlice) (tag_of w), w with
   | AConst c, _ => container_const c t pl st
   | ACall FSliceList, WList ws =>
-      match slice_grow te e pl (length ws) st with
-      | (DOk st1, c) => dec_elems rec e ws (fun i => (c, [i])) 0 (add_ref st1 (TPtr t) (XPtrTo (fst pl) (snd pl)))
+      (* count := ReadCount(); n := min(count, minPrealloc); UnsafeGrow(slice, n); AddReference(p); elements
+         (growing one by one beyond n); Len = number of elements decoded *)
+      let n0 := Nat.min (length ws) min_prealloc in
+      match slice_grow te e pl n0 st with
+      | (DOk st1, _) => slice_elems e ws pl 0 n0 (add_ref st1 (TPtr t) (XPtrTo (fst pl) (snd pl)))
       | (other, _) => other
       end
   | ADefault, _ => default_decode t w pl st
